@@ -812,6 +812,32 @@ pub fn stress_shapes(thorough: bool) -> Vec<(String, Vec<u8>)> {
         b.extend(frame_bytes(&chunks, 1));
         v.push((format!("bomb-cel-{}-refused-{}", name, if layer == 0 { "duplicate" } else { "undefined-layer" }), b));
     }
+    // tilemap bombs with 8 and 16 bits per tile (refused today; a reader that accepts them must not turn each
+    // inflated byte into a much larger in-memory tile)
+    for bits in [8u16, 16] {
+        let side = 4100u16;
+        let raw = vec![0u8; side as usize * side as usize * (bits as usize / 8)];
+        let ts = Tileset { id: 0, flags: 2, count: 1, tw: 1, th: 1, base_index: 1, name: String::new(), ext: (0, 0), pixels: vec![0; 4] };
+        let mut w = W::new(0x2005);
+        w.u16(Kind::Index, "cel_layer", 0);
+        w.i16(Kind::Offset, "cel_x", 0);
+        w.i16(Kind::Offset, "cel_y", 0);
+        w.u8(Kind::Opacity, "cel_opacity", 255);
+        w.u16(Kind::Enum, "cel_type", 3);
+        w.reserved(7, &mut None);
+        w.u16(Kind::Dim, "tm_w", side);
+        w.u16(Kind::Dim, "tm_h", side);
+        w.u16(Kind::Enum, "tm_bits", bits);
+        let full = if bits == 8 { 0xFFu32 } else { 0xFFFF };
+        for m in [full >> 3, 1 << (bits - 3), 1 << (bits - 2), 1 << (bits - 1)] {
+            w.u32(Kind::Value, "tm_mask", m);
+        }
+        w.reserved(10, &mut None);
+        w.bytes(Kind::Payload, "tm_zlib", &zlib(&raw, 9));
+        let mut b = header_bytes(1, 4, 4, 32);
+        b.extend(frame_bytes(&[chunk(tileset_chunk(&ts, 9, &mut None)), simple_layer(0, LayerKind::Tilemap { tileset: 0 }, 1), chunk(w)], 1));
+        v.push((format!("bomb-tilemap-{}-bits-per-tile", bits), b));
+    }
     // a well-formed file: one large, highly compressible cel and many frames linking to it
     // (any per-link copy of the pixel data multiplies memory)
     for (side, nlinks) in [(1024u16, 63usize), (700, 400)] {
